@@ -222,10 +222,15 @@ class RealHistory:
     """executes a history on one real engine; can be stepped from outside
     (C04 interleaves several of these)"""
 
-    def __init__(self, real, budget=3000000, yp=None):
+    def __init__(self, real, budget=3000000, yp=None, atom_mode='fresh'):
         self.real = real
         self.E = real.E
         self.yp = yp or real.engine()
+        # where the atom objects of API-built terms come from: made at the time of use ('fresh'), made once and
+        # held by the host program - also across clear() - ('held'), or made by another engine ('other')
+        self.atom_mode = atom_mode
+        self._held = {}
+        self._other = real.engine() if atom_mode == 'other' else None
         self.vmap = {}
         self.qs = {}
         self.held = {}
@@ -235,8 +240,18 @@ class RealHistory:
         self.saved = []           # (step index, values collected with get_value at an answer, snapshot after the query ended)
         self.unstable = []
 
+    def atomf(self, name):
+        if self.atom_mode == 'held':
+            a = self._held.get(name)
+            if a is None:
+                a = self._held[name] = self.yp.atom(name)
+            return a
+        if self.atom_mode == 'other':
+            return self._other.atom(name)
+        return self.yp.atom(name)
+
     def terms(self, ts):
-        return [build_real(self.yp, t, self.vmap) for t in ts]
+        return [build_real(self.yp, t, self.vmap, self.atomf) for t in ts]
 
     def guarded(self, fn):
         clk = self.real.clock
@@ -410,8 +425,8 @@ class RealHistory:
         self.held = {}
 
 
-def run_real(real, history, budget=3000000, unstable=None):
-    h = RealHistory(real, budget)
+def run_real(real, history, budget=3000000, unstable=None, atom_mode='fresh'):
+    h = RealHistory(real, budget, atom_mode=atom_mode)
     try:
         for st in history:
             h.step(st)
@@ -463,7 +478,7 @@ def uniq_history(history):
     return out
 
 
-def compare_history(real, history, budgetA=60000):
+def compare_history(real, history, budgetA=60000, atom_mode='fresh'):
     """returns dict(status='ok'|'discard'|'violation', ...)"""
     try:
         hu = uniq_history(history)
@@ -476,7 +491,7 @@ def compare_history(real, history, budgetA=60000):
         return {'status': 'discard', 'reason': 'oracle_disagreement', 'A': na, 'B': nb}
     budget = 20000 * ra.steps + 2000000
     unstable = []
-    orr = normalise(run_real(real, history, budget, unstable))
+    orr = normalise(run_real(real, history, budget, unstable, atom_mode))
     if unstable:
         return {'status': 'violation', 'kind': 'collected_answer_changed_later', 'step': unstable[0]['collected_at_step'],
                 'detail': normalise(unstable[0]), 'obs': na, 'refA': ra}
